@@ -240,6 +240,17 @@ def r01_4(ctx, rr):
                             continue
                         clipped = mentions(rt, lambda x: x[0] == "op" and x[1] == "min" and mentions(x, lambda y: y == c))
                         masked = mentions(w, lambda x: x[0] == "op" and x[1] in ("&", "<<") and mentions(x, lambda y: y[0] == "op" and y[1] == "%"))
+                        if masked and w[0] == "ite":
+                            # the masked alternative must be taken exactly for the last word: idx + 1 == ceil(len / BITS)
+                            c = w[1]
+                            sides_ok = False
+                            if c[0] == "op" and c[1] == "==":
+                                for a, bb in ((c[2], c[3]), (c[3], c[2])):
+                                    if bb[0] == "call" and bb[1] == "int::div_ceil" and mentions(bb, lambda y: y[0] == "call" and y[1].endswith("::len")):
+                                        base, off = lin(a)
+                                        if off == 1 and mentions(w[2], lambda y: y[0] == "index" and y[2] == base) and mentions(w[2], lambda y: y[0] == "op" and y[1] == "&"):
+                                            sides_ok = True
+                            masked = sides_ok
                         # a full-word-only index (i < len / BITS) would also be fine
                         accs.append((n, clipped or masked, tshow(rt)[:160]))
             Walker(F, b, on_node=on_node).run()
